@@ -14,6 +14,7 @@ from concurrent.futures import ThreadPoolExecutor
 
 ROOT = os.path.dirname(os.path.dirname(os.path.abspath(__file__)))
 REPO = os.environ.get('VF_REPO', '/repo')
+EVID = os.environ.get('VF_EVIDENCE_DIR') or os.path.join(ROOT, 'evidence')     # experiments on patched copies write elsewhere
 sys.path.insert(0, os.path.join(ROOT, 'vf'))
 
 LIB_FILES = ['cJSON.c', 'cJSON.h', 'cJSON_Utils.c', 'cJSON_Utils.h']
@@ -294,7 +295,7 @@ def run_query(sc, q, args):
         prop = {'property': r.get('property'), 'description': desc, 'location': r.get('sourceLocation', {})}
         kind = 'unwind' if 'unwinding assertion' in desc else ('bound' if desc.startswith('VF_BOUND:') else 'assert')
         fields = extract_inputs(r.get('trace', []))
-        rp_dir = os.path.join(ROOT, 'evidence', 'replays')
+        rp_dir = os.path.join(EVID, 'replays')
         os.makedirs(rp_dir, exist_ok=True)
         rp = os.path.join(rp_dir, '%s-%d.replay' % (tag, i))
         write_replay(rp, q, fields, prop)
@@ -384,7 +385,7 @@ def cmd_check(args):
                 conf = c20.confirm(ROOT, sc2.src, sc2.dir)
                 c20_info['confirm'] = conf
                 confirmed = conf.get('tsan', ('', ''))[0] == 'race' or conf.get('results', ('', ''))[0] == 'mismatch'
-                rp_dir = os.path.join(ROOT, 'evidence', 'replays'); os.makedirs(rp_dir, exist_ok=True)
+                rp_dir = os.path.join(EVID, 'replays'); os.makedirs(rp_dir, exist_ok=True)
                 rp = os.path.join(rp_dir, 'C20.frame.replay')
                 with open(rp, 'w') as f:
                     f.write('#vf-c20 findings (replay: build repro/c20_threads.c with -fsanitize=thread against /repo and run it under setarch -R)\n')
@@ -458,8 +459,8 @@ def cmd_check(args):
         del ev['coverage']['explanation']
     if ev['coverage']['c20'] is None:
         del ev['coverage']['c20']
-    os.makedirs(os.path.join(ROOT, 'evidence'), exist_ok=True)
-    with open(os.path.join(ROOT, 'evidence', pid + '.json'), 'w') as f:
+    os.makedirs(EVID, exist_ok=True)
+    with open(os.path.join(EVID, pid + '.json'), 'w') as f:
         json.dump(ev, f, indent=1)
     for k, v in known_hit:
         print('KNOWN-FINDING: property=%s %s' % (pid, k['text']))
